@@ -95,7 +95,7 @@ def replay(case):
     tr["obs2"] = [{"label": "layout2-compute", "res": r2, "ord": True, "idx": True}]
     tr["pandas"] = pdres
     tr["truth"] = [dict(tl, scale=tr["scale"]) for tl in truth_lines]
-    tr["msgs"] = {o["label"]: o["res"].get("msg", "")[:120] for o in obs + tr["obs2"] if not o["res"]["ok"]}
+    tr["msgs"] = {o["label"]: (o["res"].get("err", "") + ": " + o["res"].get("msg", ""))[:160] for o in obs + tr["obs2"] if not o["res"]["ok"]}
     return tr
 
 
